@@ -9,7 +9,7 @@ EXPLANATION = (
     "that jacobian_boxplus itself is d(p [+] delta)/d delta, that each *_compact method is the compact rows of the full one, "
     "and that the shapes are the documented ones."
 )
-BOUNDS = "12 methods x 4 pose types, every entry x every tangent direction; exact real arithmetic"
+BOUNDS = "12 methods x 4 pose types, every entry x every tangent direction; exact real arithmetic; fresh result arrays; state-free (used-then-edited pose objects on either operand side, same object on both sides)"
 OUTSIDE = "rounding; ambient (off-manifold) partial derivatives are not asserted (stricter than the property)"
 ASSUMPTIONS = [
     "dual-number semantics validated per run against central differences of the real operations",
